@@ -80,3 +80,19 @@ claim("C16", "other",
       "polynomial identity on the extracted index expression with finite witness search (R-LINEAR), value-graph formula and "
       "slice-alignment rules (R-ALG, R-ALIGN, R-PBC), file-handle typestate (R-HANDLE), truncation idiom rule (R-TRUNC)",
       "DESIGN.md section 4, C16")
+
+claim("C11", "other",
+      "Decides, for all configurations, the algebraic and index structure that makes the assembled matrix M^-1/2 (d2U/dr dr) "
+      "M^-1/2: every entry of the 2D and 3D pair block equals s2 x_a x_b/r^2 + (s1-s1rc)(delta_ab/r - x_a x_b/r^3) as a "
+      "rational function, all ndim^2 entries are assigned, each is even in the pair vector (=> block(i,j)=block(j,i)), the "
+      "j-block is the negated i-block; prefactor[a,b]=1/sqrt(m[a+1] m[b+1]); a block stored at rows of particle p and columns "
+      "of particle q is scaled by prefactor[type_p-1,type_q-1] (this rule found the diagonal-block defect G4); diagonal "
+      "accumulates, off-diagonal is the negated block; epsilon, sigma, r_c indexed by the same (type_i,type_j), cutoff tested "
+      "inclusively against the r_c handed to the potential, r is the norm of the vector handed to pair_matrix, j != i; eigh on "
+      "the assembled matrix, modes are columns, omega = sqrt(lambda>0), matrix saved before deletion. s', s'' themselves are "
+      "C12. Not decided: agreement with finite differences on data, numerical null space.",
+      "Trusted: numpy.linalg.eigh/norm semantics; idiom tables in pmsa/checks/c11.py; C12 for the derivative triple; C02 for "
+      "remove_pbc.",
+      "rational-function identity on extracted block entries (R-ALG), placement/prefactor index agreement (R-IDX), guard and "
+      "loop-domain rules, save ordering (R-SAVE)",
+      "DESIGN.md section 4, C11")
